@@ -277,6 +277,7 @@ func runC20(r *vhlib.Run) {
 	runWBITW(r)
 	// offsets coded as (range symbol, extra bits): RangeEncoder, WriteOffset / ReadOffset
 	c20Ranges(r)
+	runWRANGE(r) // RangeEncoder / MakeRangeCodes against the model Prefix/Range.v
 	// Decoder.Init / Encoder.Init tables and ReadSymbol against their implementation-level model
 	wdectab(r)
 	// exhaustive: alphabets up to 5 (thorough: 6) symbols with counts 0..4, every limit
